@@ -1,5 +1,5 @@
 SPECIFICATION TraceSpec
-CONSTANTS NH = 4 NO = 4 NN = 5 MaxLen = 100000 MaxSub = 100000 MaxArg = 100000 Kinds = {"ref", "item", "group", "cfg", "cmd", "stage"} Fails = {0, 1, 2} FailOut = TRUE Prune = FALSE
+CONSTANTS NH = 4 NO = 4 NN = 5 MaxLen = 100000 MaxSub = 100000 MaxArg = 100000 Kinds = {"ref", "item", "group", "cfg", "cmd", "stage"} Solo = {3, 4} Fails = {0, 1, 2} FailOut = TRUE Prune = FALSE
 INVARIANTS TypeOK AliasOK Refines Balance AllGone OneSlot
 POSTCONDITION TraceAccepted
 CHECK_DEADLOCK FALSE
